@@ -1,6 +1,9 @@
-(* Model of Grid::rcb (src/cartesian/mod.rs, src/cartesian/rcb.rs), integer
-   weights in Z (the i64 instance exactly; the f64 instance for integer-valued
-   weights whose sums stay below 2^53, where f64 +,- are exact).
+(* Model of Grid::rcb (src/cartesian/mod.rs, src/cartesian/rcb.rs), weights
+   in Z: the i64 instance exactly, and the f64 instance for DYADIC weights
+   w = z * 2^-k (z integer, one scale k per input) whose total z stays below
+   2^53: every sum the code forms (slab sums, fold_chunks, the scans, the
+   par_iter total) is then exact in f64 whatever the association, so the
+   model works on the integers z and only the two thresholds are floats.
    Executable definitions only; proofs are in Proofs/GridRcb*.v.
 
    Panic sites: 1 = slice index out of bounds (weights[..], weights[min..max]),
@@ -101,36 +104,50 @@ Definition sat_i64 (x : spec_float) : Z :=
          end
   end%Z.
 
-(* W = f64: the thresholds stay floats and are only ever COMPARED with
-   integer-valued prefix sums p:  p < lo  <->  p < ceil lo ;  hi < p  <->  floor hi < p.
+(* the weight type W of the instance: i64, or f64 holding z * 2^-k *)
+Inductive wty := I64 | F64 (k : nat).
+
+(* W = f64: the thresholds stay floats and are only ever COMPARED with prefix
+   sums p = z * 2^-k (z integer):  p < lo  <->  z < ceil (lo * 2^k) ;
+   hi < p  <->  floor (hi * 2^k) < z.
    Non-finite thresholds (never produced for |total| < 2^1000) compare like +-2^1100 / NaN like "never". *)
 Definition BIG : Z := (2 ^ 1100)%Z.
-Definition ceil_cmp (lo : spec_float) : Z :=
+Definition ceil_cmp (k : Z) (lo : spec_float) : Z :=
   match lo with
   | S754_zero _ => 0
   | S754_finite s m e =>
       let n := if s then Zneg m else Zpos m in
-      if 0 <=? e then n * 2 ^ e else - ((- n) / 2 ^ (- e))
+      if 0 <=? e + k then n * 2 ^ (e + k) else - ((- n) / 2 ^ (- (e + k)))
   | S754_infinity s => if s then - BIG else BIG
   | S754_nan => - BIG
   end%Z.
-Definition floor_cmp (hi : spec_float) : Z :=
+Definition floor_cmp (k : Z) (hi : spec_float) : Z :=
   match hi with
   | S754_zero _ => 0
   | S754_finite s m e =>
       let n := if s then Zneg m else Zpos m in
-      if 0 <=? e then n * 2 ^ e else n / 2 ^ (- e)
+      if 0 <=? e + k then n * 2 ^ (e + k) else n / 2 ^ (- (e + k))
   | S754_infinity s => if s then - BIG else BIG
   | S754_nan => BIG
   end%Z.
 
-(* ideal_part_weight, min_part_weight, max_part_weight.  [fw]: W = f64 (else i64). *)
-Definition thresholds (fw : bool) (tolb : N) (tot : Z) : Z * Z :=
+(* total_weight.as_(): i64 -> f64 rounds to nearest even; the f64 total z * 2^-k is itself *)
+Definition total_f64 (fw : wty) (tot : Z) : spec_float :=
+  match fw with
+  | I64 => f64_of_Z tot
+  | F64 k => binary_normalize 53 1024 tot (- Z.of_nat k) false
+  end.
+
+(* ideal_part_weight, min_part_weight, max_part_weight, in units of 2^-k for f64 *)
+Definition thresholds (fw : wty) (tolb : N) (tot : Z) : Z * Z :=
   let tol := f64_of_bits tolb in
-  let ideal := f64_div (f64_of_Z tot) (f64_of_Z 2) in
+  let ideal := f64_div (total_f64 fw tot) (f64_of_Z 2) in
   let lo := f64_mul ideal (f64_sub (f64_of_Z 1) tol) in
   let hi := f64_mul ideal (f64_add (f64_of_Z 1) tol) in
-  if fw then (ceil_cmp lo, floor_cmp hi) else (sat_i64 lo, sat_i64 hi).
+  match fw with
+  | F64 k => (ceil_cmp (Z.of_nat k) lo, floor_cmp (Z.of_nat k) hi)
+  | I64 => (sat_i64 lo, sat_i64 hi)
+  end.
 
 (* ---------------------------------------------------------------- weighted_median *)
 
@@ -188,7 +205,7 @@ Fixpoint median_loop (c : cfg) (fuel T : nat) (ws : list Z) (mn mx : Z) (min max
     end
   end.
 
-Definition weighted_median (c : cfg) (fuel T : nat) (fw : bool) (ws : list Z) (tot : Z) : res (nat * Z) :=
+Definition weighted_median (c : cfg) (fuel T : nat) (fw : wty) (ws : list Z) (tot : Z) : res (nat * Z) :=
   let '(mn, mx) := thresholds fw (tol_bits c) tot in
   median_loop c fuel T ws mn mx 0 (length ws) 0%Z.
 
@@ -197,7 +214,7 @@ Definition weighted_median (c : cfg) (fuel T : nat) (fw : bool) (ws : list Z) (t
 Inductive tree := Whole | Split (position : nat) (l r : tree).
 
 (* recurse_2d / recurse_3d ([D] = 2 / 3), structural on iter_count *)
-Fixpoint recurse (c : cfg) (fuel T : nat) (fw : bool) (ds : list nat) (ws : list Z)
+Fixpoint recurse (c : cfg) (fuel T : nat) (fw : wty) (ds : list nat) (ws : list Z)
          (sub : subgrid) (tot : Z) (iter_count coord : nat) : res tree :=
   match nth_opt sub coord with
   | None => Panic 2
@@ -235,7 +252,7 @@ Fixpoint part_of (D : nat) (t : tree) (pos : list nat) (coord : nat) (id : N) : 
   end.
 
 (* Grid::<2>::rcb / Grid::<3>::rcb; [plen] = partition.len() *)
-Definition grid_rcb (c : cfg) (fuel T : nat) (fw : bool) (ds : list nat) (ws : list Z)
+Definition grid_rcb (c : cfg) (fuel T : nat) (fw : wty) (ds : list nat) (ws : list Z)
            (iter_count plen : nat) : res (list N) :=
   if existsb (Nat.eqb 0) ds then Panic 8 else
   match (match length ds with
@@ -298,21 +315,37 @@ Section Spec.
       TreeOK (S d) c sub (Split p l r).
 End Spec.
 
-(* what the code guarantees at a cut, in terms of its own thresholds *)
-Definition bal_code (fw : bool) (tolb : N) (tot wl sr sl : Z) : Prop :=
-  let '(mn, mx) := thresholds fw tolb tot in
-  (mn <= wl <= mx \/ (wl < mn /\ mx < wl + sr))%Z.
+(* ---- the property's balance clause ----
+   tot = weight being split, wl = weight of the low side, sr / sl = weight of
+   the slab just above / just below the cut (all in the same unit).
+   band: the low side is within 1% of half the weight
+     - i64 weights: plus one unit (the thresholds are truncated to integers);
+     - f64 weights: NO unit; the relative allowance 2^-e (e = 40 for exact
+       dyadic weights) only covers the rounding of the two f64 products
+       ideal * fl(1 -+ TOLERANCE) the code itself compares with
+       (each within 2^-52 of 0.99 / 1.01 times half).
+   adjacent: the cut is next to the slab that holds the half-weight mark. *)
+Definition band_unit (tot wl : Z) : Prop := (100 * Z.abs (2 * wl - tot) <= tot + 200)%Z.
+Definition band_rel (e : Z) (tot wl : Z) : Prop :=
+  (2 ^ e * (100 * Z.abs (2 * wl - tot)) <= (2 ^ e + 1) * tot)%Z.
+Definition adjacent (tot wl sr sl : Z) : Prop :=
+  ((2 * wl <= tot <= 2 * (wl + sr)) \/ (2 * (wl - sl) <= tot <= 2 * wl))%Z.
+Definition bal_unit (tot wl sr sl : Z) : Prop := band_unit tot wl \/ adjacent tot wl sr sl.
+Definition bal_rel (e : Z) (tot wl sr sl : Z) : Prop := band_rel e tot wl \/ adjacent tot wl sr sl.
 
-(* the property's balance clause: the low side is within 1% of half the weight
-   (plus one unit), or the cut is adjacent to the slab holding the half-weight mark *)
-Definition bal_prop (tot wl sr sl : Z) : Prop :=
-  (100 * Z.abs (2 * wl - tot) <= tot + 200
-   \/ (2 * wl <= tot <= 2 * (wl + sr))
-   \/ (2 * (wl - sl) <= tot <= 2 * wl))%Z.
-Definition bal_prop_b (tot wl sr sl : Z) : bool :=
-  ((100 * Z.abs (2 * wl - tot) <=? tot + 200)
-   || ((2 * wl <=? tot) && (tot <=? 2 * (wl + sr)))
-   || ((2 * (wl - sl) <=? tot) && (tot <=? 2 * wl)))%Z.
+Definition band_unit_b (tot wl : Z) : bool := (100 * Z.abs (2 * wl - tot) <=? tot + 200)%Z.
+Definition band_rel_b (e : Z) (tot wl : Z) : bool :=
+  (2 ^ e * (100 * Z.abs (2 * wl - tot)) <=? (2 ^ e + 1) * tot)%Z.
+Definition adjacent_b (tot wl sr sl : Z) : bool :=
+  (((2 * wl <=? tot) && (tot <=? 2 * (wl + sr))) || ((2 * (wl - sl) <=? tot) && (tot <=? 2 * wl)))%Z.
+Definition bal_unit_b (tot wl sr sl : Z) : bool := band_unit_b tot wl || adjacent_b tot wl sr sl.
+Definition bal_rel_b (e : Z) (tot wl sr sl : Z) : bool := band_rel_b e tot wl || adjacent_b tot wl sr sl.
+
+(* the clause for a weight type *)
+Definition bal_prop (fw : wty) : Z -> Z -> Z -> Z -> Prop :=
+  match fw with I64 => bal_unit | F64 _ => bal_rel 40 end.
+Definition bal_prop_b (fw : wty) : Z -> Z -> Z -> Z -> bool :=
+  match fw with I64 => bal_unit_b | F64 _ => bal_rel_b 40 end.
 
 (* The statement of C10 about an output array [ids] of Grid::rcb. *)
 Definition C10_spec (bal : Z -> Z -> Z -> Z -> Prop) (s : nat) (ds : list nat) (ws : list Z)
@@ -326,7 +359,8 @@ Definition C10_spec (bal : Z -> Z -> Z -> Z -> Prop) (s : nat) (ds : list nat) (
 
 (* ---------------------------------------------------------------- checker *)
 
-Fixpoint check_tree (D : nat) (f : list nat -> Z) (d c : nat) (sub : subgrid) (t : tree) : bool :=
+Fixpoint check_tree (D : nat) (f : list nat -> Z) (balb : Z -> Z -> Z -> Z -> bool)
+         (d c : nat) (sub : subgrid) (t : tree) : bool :=
   match t with
   | Whole =>
     match d with
@@ -341,10 +375,10 @@ Fixpoint check_tree (D : nat) (f : list nat -> Z) (d c : nat) (sub : subgrid) (t
       | None => false
       | Some (off, size) =>
         negb (Nat.eqb size 0) && Nat.leb off p && Nat.ltb p (off + size)
-        && bal_prop_b (box_sum sub f) (box_sum (set_nth sub c (off, p - off)%nat) f) (slab f sub c p)
+        && balb (box_sum sub f) (box_sum (set_nth sub c (off, p - off)%nat) f) (slab f sub c p)
                       (if Nat.eqb p off then 0%Z else slab f sub c (p - 1))
-        && check_tree D f d' (S c mod D) (set_nth sub c (off, p - off)%nat) l
-        && check_tree D f d' (S c mod D) (set_nth sub c (p, size - (p - off))%nat) r
+        && check_tree D f balb d' (S c mod D) (set_nth sub c (off, p - off)%nat) l
+        && check_tree D f balb d' (S c mod D) (set_nth sub c (p, size - (p - off))%nat) r
       end
     end
   end.
@@ -391,14 +425,14 @@ Definition ids_of_tree (ds : list nat) (t : tree) (sp : nat) : res (list N) :=
   map_res (fun i => bind (position_of ds i) (fun pos => part_of (length ds) t pos sp 0%N))
           (seq 0 (glen ds)).
 
-Definition check_C10 (s : nat) (ds : list nat) (ws : list Z) (k : nat) (ids : list N) : bool :=
+Definition check_C10 (balb : Z -> Z -> Z -> Z -> bool) (s : nat) (ds : list nat) (ws : list Z) (k : nat) (ids : list N) : bool :=
   negb (existsb (Nat.eqb 0) ds)
   && (Nat.eqb (length ds) 2 || Nat.eqb (length ds) 3)
   && Nat.eqb (length ws) (glen ds)
   && Nat.eqb (length ids) (glen ds)
   && forallb (fun q => (q <? 2 ^ N.of_nat k)%N) ids
   && let t := rebuild ds ids k s (into_subgrid ds) in
-     check_tree (length ds) (wfun ds ws) k s (into_subgrid ds) t
+     check_tree (length ds) (wfun ds ws) balb k s (into_subgrid ds) t
      && match ids_of_tree ds t s with
         | Ok ids' => list_eqb_N ids' ids
         | _ => false
